@@ -214,6 +214,12 @@ func (a *asyncFifoRetryImpl) retry(ctx context.Context) (breakLoop bool) {
 			if errors.Is(err, storage.ErrUncertainResult) {
 				state = retryUnknownPut
 			}
+			if !errors.Is(err, storage.ErrCASFailed) {
+				// the rewrite failed (or may have failed) although nobody else has modified the key,
+				// so the uncertain operation is still unresolved: keep it and retry in next tick.
+				// (an uncertain rewrite is queued as well, under its own revision)
+				return true
+			}
 		}
 	}
 
